@@ -343,6 +343,7 @@ func runCrash(k *mon.Case, caseDir string, w0 *Workload, kpt int, mode string, s
 
 // analyse derives from the crash log what was acknowledged, what was in progress and what is durable.
 func analyse(w *Workload, lines []crashkit.Line) {
+	w.ChildTips = nil
 	acked, inprog := 0, -1
 	lastCommitLine := -1
 	ackLine := map[int]int{}
@@ -356,6 +357,12 @@ func analyse(w *Workload, lines []crashkit.Line) {
 			i, _ := strconv.Atoi(f[1])
 			if len(f) > 2 && f[2] == "ok" {
 				ackLine[i] = li // only a delivery that returned without error acknowledges storage
+			}
+			for len(w.ChildTips) <= i {
+				w.ChildTips = append(w.ChildTips, "")
+			}
+			if len(f) > 3 {
+				w.ChildTips[i] = f[3]
 			}
 			acked = i + 1
 			inprog = -1
